@@ -132,6 +132,8 @@ def run(tier):
                "max_commits": 0, "reorgs": 0, "histories": len(docs),
                "with_uncle_candidates_right_after_epoch_boundary": 0, "uncles_included_after_boundary": 0}
         for (ok, nev), d in zip(results, docs):
+            # the named vacuity case is about what the histories produced, whether or not a violation cut them short
+            tot["with_uncle_candidates_right_after_epoch_boundary"] += sum(1 for e in d["events"] if e["ev"] == "Template" and e.get("boundary"))
             evs = d["events"][:nev] if not ok else d["events"]
             tips = []
             for e in evs:
@@ -147,7 +149,6 @@ def run(tier):
                 tot["settled"] += bool(e["settled"])
                 tot["on_stale_parent"] += (e["parent"] != tips and e["parent"] != "genesis")
                 tot["max_commits"] = max(tot["max_commits"], len(e["txs"]))
-                tot["with_uncle_candidates_right_after_epoch_boundary"] += bool(e.get("boundary"))
                 tot["uncles_included_after_boundary"] += bool(e.get("boundary")) and e.get("uncles", 0) > 0
                 c.case({"h": d["summary"]["seed"], "parent": e["parent"], "txs": e["txs"], "props": e["props"], "m": e["moment"]},
                        bool(e["txs"]) or e.get("uncles", 0) > 0 or e["moment"] != "after-operation")
@@ -155,6 +156,8 @@ def run(tier):
         fut.result()
     c.add("traces_validated_against_impl", tot["templates"])
     c.set("templates", tot)
+    if c.violations:                       # a violation outranks the vacuity guards (cut histories count fewer templates)
+        return c.finish()
     if tot["templates"] < 5 * nh or tot["with_commits"] == 0 or tot["before_pool_sync"] == 0 or tot["reorgs"] == 0:
         raise V.ToolError("vacuous run: %s" % tot)
     # named vacuity case: "template with uncle candidates right after an epoch boundary"
